@@ -13,28 +13,19 @@
   emitted JSON; it shares nothing with the encoders). The model is `Mcp.Rpc` (see there). The harness feeds every captured
   frame to the very same `wfMsg`.
 
-  FULL statements and what the current tree makes of them:
+  History: on the tree first studied the statement failed in six ways — nil slices encoded as `null` (D07), embedded
+  resources tagged "embedded_resource", results the encoder refuses answered by an empty 200 / nothing (D08), a wrong path
+  answered by an implicit empty 200 (D09), an id without method / result / error accepted with an empty 202 (D10), stdio
+  dropping unparsable / invalid lines in silence and error answers without an `id` member (D11). All were found by this
+  check and repaired in the library (legacy SSE's part of D10 excepted, see below); the model is the repaired code and the
+  theorems below are FULL statements: `C03_wf_streamable`, `C03_wf_sse`, `C03_wf_stdio` (every message of every reaction, for
+  every configuration, registry, session table and input), `C03_codes_*`, `C03_never_silent_*`.
 
-  * (wf)  ∀ configuration, registry, input: every message of the reaction satisfies `wfMsg`.
-    FALSE. Proved: `C03_wf_streamable_partial`, `C03_wf_sse_partial`, `C03_wf_stdio_partial` under
-      - `reg.Conforming`: handlers return non-nil slices (else `"content": null` etc., D07:
-        `C03_null_slice_counterexample`) and no embedded resource (the encoder writes the type tag "embedded_resource", the
-        schema says "resource": `C03_embedded_type_counterexample`); descriptors carry an object schema;
-      - `idsExact`: integer ids are within ±2^53 (beyond, the id comes back as the float64 it was decoded into:
-        `C03_id_rounded_counterexample`);
-      - legacy SSE `readableEnvelope` / stdio `stdioAnswerable`: otherwise the error answer has no `id` member at all
-        (D11: `C03_error_without_id_counterexample`).
-  * (codes) each fault class gets its code. Proved for every registry and every request that reaches the dispatchers:
-    `C03_codes_unknown_method` (−32601), `C03_codes_bad_params` (−32602), `C03_codes_handler_error_*` (−32603 with the
-    handler's text inside the message), `C03_codes_unparsable` (400 on Streamable, −32700 on legacy SSE); and end to end
-    on all three servers for well-formed envelopes: `C03_codes_served`. FALSE for: a result that cannot be encoded (empty
-    200 / nothing at all instead of −32603, D08: `C03_unencodable_counterexample`) and unparsable stdio lines (silence,
-    D11: `C03_never_silent_stdio_counterexample`). `C03_codes_fact` (T-gen) pins the code literal of every error branch in
-    the source to the model's.
-  * (never silent) FALSE for: a wrong path on Streamable (D09), an id without method / result / error on both HTTP servers
-    (D10), everything stdio drops (D11), unencodable results (D08) — `C03_never_silent_counterexample`; proved otherwise:
-    `C03_never_silent_streamable_partial`, `C03_never_silent_sse_partial`, `C03_never_silent_stdio_partial`,
-    `C03_request_answered`.
+  What remains false, with its witness: the legacy SSE server writes 202 before it classifies and decodes the body, so an
+  id without method / result / error, and a request its typed decoder rejects (a number no float64 can hold), are accepted
+  with an empty 202 and nothing follows on the stream — `C03_never_silent_sse_partial` + `C03_never_silent_sse_counterexample`.
+  Ids are judged up to ±2^53 (beyond, JSON implementations — this one included — hold them as floating point:
+  `C03_id_beyond_2_53_witness`).
 -/
 import Mcp.Lemmas.Rpc
 import Mcp.Gen.RpcFacts
@@ -45,19 +36,19 @@ open Mcp.Str Mcp.Json Mcp.Content Mcp.RpcSpec Mcp.Rpc Mcp.Session
 
 /-- Streamable HTTP — every mode, every verb, path, session reference, Accept header, body: every JSON-RPC message in the
     answer is well-formed with respect to the request (HTTP-level refusals carry no JSON-RPC message). -/
-theorem C03_wf_streamable_partial (c : SCfg) (reg : Registry) (st : St) (i : HttpIn) (hreg : reg.Conforming)
-    (hid : idsExact i.body.json?) : ∀ m ∈ (serveStreamable c reg st i).2.messages, wfMsg i.body.json? m = true :=
-  wf_serveStreamable c reg st i hreg hid
+theorem C03_wf_streamable (c : SCfg) (reg : Registry) (st : St) (i : HttpIn) (hreg : reg.Conforming) :
+    ∀ m ∈ (serveStreamable c reg st i).2.messages, wfMsg i.body.json? m = true :=
+  wf_serveStreamable c reg st i hreg
 
-/-- legacy SSE — every verb, path, session parameter; bodies whose envelope offers an id or a method. -/
-theorem C03_wf_sse_partial (reg : Registry) (i : SseIn) (hreg : reg.Conforming) (hid : idsExact i.body.json?)
-    (henv : readableEnvelope i.body) : ∀ m ∈ (serveSSE reg i).messages, wfMsg i.body.json? m = true :=
-  wf_serveSSE reg i hreg hid henv
+/-- legacy SSE — every verb, path, session parameter, body: HTTP body and stream frames. -/
+theorem C03_wf_sse (reg : Registry) (i : SseIn) (hreg : reg.Conforming) :
+    ∀ m ∈ (serveSSE reg i).messages, wfMsg i.body.json? m = true :=
+  wf_serveSSE reg i hreg
 
-/-- stdio — every line; when it is classified as a request it decodes into one with an id. -/
-theorem C03_wf_stdio_partial (reg : Registry) (b : Body) (hreg : reg.Conforming) (hid : idsExact b.json?)
-    (hans : stdioAnswerable b) : ∀ m ∈ (serveStdio reg b).messages, wfMsg b.json? m = true :=
-  wf_serveStdio reg b hreg hid hans
+/-- stdio — every line. -/
+theorem C03_wf_stdio (reg : Registry) (b : Body) (hreg : reg.Conforming) :
+    ∀ m ∈ (serveStdio reg b).messages, wfMsg b.json? m = true :=
+  wf_serveStdio reg b hreg
 
 /-- …and what comes out of the dispatchers has the result shape of the method whatever the request looked like. -/
 theorem C03_result_shapes (reg : Registry) (hreg : reg.Conforming) (req : Req) (r : Json) :
@@ -65,40 +56,41 @@ theorem C03_result_shapes (reg : Registry) (hreg : reg.Conforming) (req : Req) (
     (dispatchStdio reg req = .ok (.result r) → wfResult req.method r = true) :=
   ⟨dispatch_result_wf reg hreg req r, dispatchStdio_result_wf reg hreg req r⟩
 
-/-- D07: a handler that returns a nil slice makes the server emit `"content": null` — not an array. All three servers. -/
-theorem C03_null_slice_counterexample :
+/-- Every content item the encoder writes — text, image, audio, embedded resource, with or without annotations — and every
+    resource contents item is one of the MCP schema (embedded resources carry the tag "resource"). -/
+theorem C03_content_items (c : Content) (rc : ResourceContents) :
+    wfContent (encodeContent c) = true ∧ wfResourceContents (encodeResourceContents rc) = true :=
+  ⟨wf_content c, wf_resourceContents rc⟩
+
+/-- D07 repaired: a handler that returns a nil slice is answered with an empty array (all three servers). -/
+theorem C03_nil_slices_are_arrays :
     let j := demoEnv (.int 1) t!"tools/call" (some (callParams t!"nilcontent"))
-    ((serveStreamable (demoCfg .stateless) demoReg {} (postOf .none false j)).2.messages.all (wfMsg (some j))) = false ∧
-    ((serveSSE demoReg (ssePostOf j)).messages.all (wfMsg (some j))) = false ∧
-    ((serveStdio demoReg (.json j)).messages.all (wfMsg (some j))) = false ∧
-    (serveStdio demoReg (.json j)).hasResult = true := by
+    ((serveStreamable (demoCfg .stateless) demoReg {} (postOf .none false j)).2.messages.all (wfMsg (some j))) = true ∧
+    ((serveSSE demoReg (ssePostOf j)).messages.all (wfMsg (some j))) = true ∧
+    ((serveStdio demoReg (.json j)).messages.all (wfMsg (some j))) = true ∧
+    (serveStdio demoReg (.json j)).hasResult = true ∧
+    (runResource ⟨[], t!"u", [], [], 0, fun _ => .contents none⟩ none).code? = none := by
   decide +kernel
 
-/-- The encoder writes embedded resources with the type tag "embedded_resource"; the MCP schema knows "resource". -/
-theorem C03_embedded_type_counterexample :
-    let j := demoEnv (.int 1) t!"tools/call" (some (callParams t!"embedded"))
-    ((serveStreamable (demoCfg .stateless) demoReg {} (postOf .none false j)).2.messages.all (wfMsg (some j))) = false ∧
-    ((serveSSE demoReg (ssePostOf j)).messages.all (wfMsg (some j))) = false ∧
-    ((serveStdio demoReg (.json j)).messages.all (wfMsg (some j))) = false := by
-  decide +kernel
-
-/-- An integer id beyond 2^53 comes back as the float64 it was decoded into: 2^53 + 1 is answered as 2^53. -/
-theorem C03_id_rounded_counterexample :
-    let j := demoEnv (.int 9007199254740993) t!"ping" none
-    wfEnvelope j = true ∧
-    ((serveStreamable (demoCfg .stateless) demoReg {} (postOf .none false j)).2.messages.all (wfMsg (some j))) = false ∧
-    ((serveStdio demoReg (.json j)).messages.all (wfMsg (some j))) = false ∧
-    ((serveStdio demoReg (.json j)).messages.all (wfMsg (some (demoEnv (.int 9007199254740992) t!"ping" none)))) = true := by
-  decide +kernel
-
-/-- D11: where no id can be read the error answer must carry `"id": null`; legacy SSE (unparsable body, unreadable
-    envelope, neither id nor method) and stdio (typed decode failure) leave the member out. -/
-theorem C03_error_without_id_counterexample :
-    ((serveSSE demoReg ⟨.post, .message, .live, .parseFail⟩).messages.all (wfMsg none)) = false ∧
+/-- D11 repaired: where no id can be read the error answer carries `"id": null` — legacy SSE (unparsable body, unreadable
+    envelope, neither id nor method) and stdio (unparsable line, invalid envelope, typed decode failure). -/
+theorem C03_unidentified_errors_carry_null_id :
+    ((serveSSE demoReg ⟨.post, .message, .live, .parseFail⟩).messages.all (wfMsg none)) = true ∧
     (serveSSE demoReg ⟨.post, .message, .live, .parseFail⟩).errorCode = some (-32700) ∧
-    ((serveSSE demoReg (ssePostOf (.obj []))).messages.all (wfMsg (some (.obj [])))) = false ∧
+    ((serveSSE demoReg (ssePostOf (.obj []))).messages.all (wfMsg (some (.obj [])))) = true ∧
+    ((serveStdio demoReg .parseFail).messages.all (wfMsg none)) = true ∧
     (let j : Json := .obj [(t!"jsonrpc", .str t!"2.0"), (t!"id", .int 1), (t!"method", .int 5)]
-     ((serveStdio demoReg (.json j)).messages.all (wfMsg (some j))) = false ∧ (serveStdio demoReg (.json j)).errorCode = some (-32700)) := by
+     ((serveStdio demoReg (.json j)).messages.all (wfMsg (some j))) = true ∧ (serveStdio demoReg (.json j)).errorCode = some (-32700)) := by
+  decide +kernel
+
+/-- The boundary of the id clause: an integer id beyond 2^53 comes back as the float64 it was decoded into (2^53 + 1 is
+    answered as 2^53); the statement speaks of ids up to 2^53, where the echo is exact (`C03_wf_*`). -/
+theorem C03_id_beyond_2_53_witness :
+    let j := demoEnv (.int 9007199254740993) t!"ping" none
+    wfEnvelope j = false ∧ wfEnvelope (demoEnv (.int 9007199254740992) t!"ping" none) = true ∧
+    ((serveStdio demoReg (.json j)).messages.all (wfMsg (some (demoEnv (.int 9007199254740992) t!"ping" none)))) = true ∧
+    ((serveStdio demoReg (.json j)).messages.all (wfMsg (some (demoEnv (.int 9007199254740994) t!"ping" none)))) = true ∧
+    ((serveStdio demoReg (.json (demoEnv (.int 5) t!"ping" none))).messages.all (wfMsg (some (demoEnv (.int 6) t!"ping" none)))) = false := by
   decide +kernel
 
 /-! ## codes -/
@@ -130,14 +122,31 @@ theorem C03_codes_handler_error_resource (r : ResEntry) (a : Option Obj) (msg : 
     (runResource r a).code? = some (-32603) ∧ ∃ t, (runResource r a).text? = some t ∧ Mcp.Str.contains t msg = true :=
   runResource_goErr r a msg h
 
-/-- unparsable input: HTTP 400 on Streamable (any mode / session), a −32700 error object on legacy SSE -/
+/-- D08 repaired: a result the encoder refuses becomes — for every id and every encoder text — a −32603 error for the same
+    id that carries the encoder's text; on all three servers (demo: a channel inside structured content). -/
+theorem C03_codes_unencodable (id : Option Json) (why : Text) :
+    ansMsg id (.unencodable why) = some (errMsg id (-32603) why) ∧
+    (let j := demoEnv (.int 1) t!"tools/call" (some (callParams t!"chan"))
+     (serveStreamable (demoCfg .stateless) demoReg {} (postOf .none false j)).2.errorCode = some (-32603) ∧
+     (serveSSE demoReg (ssePostOf j)).errorCode = some (-32603) ∧ (serveStdio demoReg (.json j)).errorCode = some (-32603) ∧
+     ((serveStdio demoReg (.json j)).messages.all (wfMsg (some j))) = true) :=
+  ⟨rfl, by decide +kernel⟩
+
+/-- unparsable input: HTTP 400 on Streamable (any mode / session), a −32700 error object on legacy SSE and on stdio; a JSON
+    value that is no JSON-RPC message at all is −32600 on stdio -/
 theorem C03_codes_unparsable (c : SCfg) (reg : Registry) (st : St) (ref : Ref) (acc : Bool) :
     (serveStreamable c reg st ⟨.post, true, ref, acc, .parseFail⟩).2.status = some 400 ∧
-    (serveSSE reg ⟨.post, .message, .live, .parseFail⟩).errorCode = some (-32700) := by
-  constructor
+    (serveSSE reg ⟨.post, .message, .live, .parseFail⟩).errorCode = some (-32700) ∧
+    (serveStdio reg .parseFail).errorCode = some (-32700) ∧
+    (∀ j, classifyStdio j = none → (serveStdio reg (.json j)).errorCode = some (-32600)) := by
+  refine ⟨?_, ?_, ?_, ?_⟩
   · simp [serveStreamable, Reaction.http, Reaction.status]
   · simp [serveSSE, serveSSEMessage, Reaction.http, Reaction.errorCode, Reaction.outcome, Reaction.messages, normMsg, errMsg, lookup,
       jsonrpcField, codeParse]
+  · simp [serveStdio, Reaction.errorCode, Reaction.outcome, Reaction.messages, normMsg, errMsg, lookup, jsonrpcField, codeParse]
+  · intro j hj
+    simp [serveStdio, hj, Reaction.errorCode, Reaction.outcome, Reaction.messages, normMsg, errMsg, lookup, jsonrpcField,
+      codeInvalidRequest]
 
 /-- End to end, all three servers: for a well-formed envelope in an accepted session the code the dispatcher chose is the
     code on the wire — so unknown methods are answered −32601 and bad parameters −32602 by Streamable HTTP (every mode),
@@ -178,26 +187,25 @@ theorem C03_codes_served (reg : Registry) (o mm : Obj) (hwf : wfEnvelope (.obj o
         subst b1; subst b2
         exact ⟨errorCode_http _ _ _ _, errorCode_frames _ _ _ _, errorCode_frames _ _ _ _⟩
 
-/-- D08: a result `json.Marshal` refuses is not reported at all — Streamable answers 200 with an empty body, legacy SSE
-    accepts with 202 and sends nothing, stdio writes nothing (the statement asks for −32603). -/
-theorem C03_unencodable_counterexample :
-    let j := demoEnv (.int 1) t!"tools/call" (some (callParams t!"chan"))
-    let r := (serveStreamable (demoCfg .stateless) demoReg {} (postOf .none false j)).2
-    r.status = some 200 ∧ r.messages.length = 0 ∧
-    (serveSSE demoReg (ssePostOf j)).status = some 202 ∧ (serveSSE demoReg (ssePostOf j)).messages.length = 0 ∧
-    (serveStdio demoReg (.json j)).messages.length = 0 := by
-  decide +kernel
-
 /-- T-gen: the code literal of every error answer built on the request path is the one the model uses in that branch. -/
 theorem C03_codes_fact : Mcp.Gen.rpcErrorCodes = modelledErrorCodes := by decide
 
 /-! ## never silent -/
 
-/-- Streamable HTTP, right path: a body that is not a JSON-RPC message gets an HTTP error status; an unknown verb gets 405. -/
-theorem C03_never_silent_streamable_partial (c : SCfg) (reg : Registry) (st : St) (ref : Ref) (acc : Bool) (b : Body) :
+/-- Streamable HTTP: a wrong path gets 404 (D09 repaired), an unknown verb 405, a body that is not a JSON-RPC message an HTTP
+    error status, and so does an id with neither method nor result nor error (D10 repaired) — every mode, session reference,
+    Accept header. -/
+theorem C03_never_silent_streamable (c : SCfg) (reg : Registry) (st : St) (v : Verb) (ref : Ref) (acc : Bool) (b : Body) :
+    (serveStreamable c reg st ⟨v, false, ref, acc, b⟩).2.status = some 404 ∧
+    (serveStreamable c reg st ⟨.other, true, ref, acc, b⟩).2.status = some 405 ∧
     (Malformed b → (serveStreamable c reg st ⟨.post, true, ref, acc, b⟩).2.answeredWithError = true) ∧
-    (serveStreamable c reg st ⟨.other, true, ref, acc, b⟩).2.status = some 405 :=
-  ⟨answered_streamable c reg st ref acc b, by simp [serveStreamable, Reaction.http, Reaction.status]⟩
+    (∀ j base, b = .json j → decodeBase j = some base → base.id.isSome = true → base.method = [] →
+      decodeResponse j = some (false, false) → (serveStreamable c reg st ⟨.post, true, ref, acc, b⟩).2.answeredWithError = true) := by
+  refine ⟨by simp [serveStreamable, Reaction.http, Reaction.status], by simp [serveStreamable, Reaction.http, Reaction.status],
+    answered_streamable c reg st ref acc b, ?_⟩
+  intro j base hb hd hi hm hr
+  subst hb
+  simpa [serveStreamable] using id_only_refused c reg st ref j base hd hi hm hr
 
 /-- legacy SSE, message endpoint: a body that is not a JSON-RPC message gets an HTTP error status or a JSON-RPC error object;
     every other path gets 404. -/
@@ -206,77 +214,69 @@ theorem C03_never_silent_sse_partial (reg : Registry) (verb : Verb) (ref : SseRe
     (serveSSE reg ⟨verb, .other, ref, b⟩).status = some 404 :=
   ⟨answered_sse reg verb ref b, by simp [serveSSE, Reaction.http, Reaction.status]⟩
 
-/-- stdio: a line that is classified as a request but does not decode into one is answered (−32700). -/
-theorem C03_never_silent_stdio_partial (reg : Registry) (j : Json) (hc : classifyStdio j = some .request)
-    (hd : decodeRequest j = none) : (serveStdio reg (.json j)).answeredWithError = true :=
-  answered_stdio reg j hc hd
+/-- What legacy SSE still leaves without an answer (it writes 202 before it classifies and decodes the body): an id without
+    method / result / error, and a request whose typed decode fails — where Streamable answers 400 to both. -/
+theorem C03_never_silent_sse_counterexample :
+    let idOnly : Json := .obj [(t!"jsonrpc", .str t!"2.0"), (t!"id", .int 5)]
+    let huge := demoEnv (.int 1) t!"ping" (some (.obj [(t!"x", .int (10 ^ 400))]))
+    (serveSSE demoReg (ssePostOf idOnly)).status = some 202 ∧ (serveSSE demoReg (ssePostOf idOnly)).messages.length = 0 ∧
+    (serveSSE demoReg (ssePostOf huge)).status = some 202 ∧ (serveSSE demoReg (ssePostOf huge)).messages.length = 0 ∧
+    (serveStreamable (demoCfg .stateful) demoReg demoSt (postOf (.sid 0) false idOnly)).2.status = some 400 ∧
+    (serveStreamable (demoCfg .stateful) demoReg demoSt (postOf (.sid 0) false huge)).2.status = some 400 := by
+  decide +kernel
+
+/-- stdio (D11 repaired): a line that is not JSON, or not a JSON-RPC message, or a request that does not decode, is answered
+    with a JSON-RPC error. -/
+theorem C03_never_silent_stdio (reg : Registry) (b : Body) :
+    (MalformedLine b → (serveStdio reg b).answeredWithError = true) ∧
+    (∀ j, b = .json j → classifyStdio j = some .request → decodeRequest j = none → (serveStdio reg b).answeredWithError = true) :=
+  ⟨answered_stdio_malformed reg b, fun j hb hc hd => hb ▸ answered_stdio reg j hc hd⟩
 
 /-- A request with a well-formed envelope in an accepted session always gets exactly one message back, on every server —
-    unless the handler's result cannot be encoded (D08). -/
+    whatever the handler does (result, error, a result that cannot be encoded). -/
 theorem C03_request_answered (reg : Registry) (o mm : Obj) (hwf : wfEnvelope (.obj o) = true) (hrep : goDecodeFields o = some mm)
     (m : Text) (hm : lookup o t!"method" = some (.str m)) (hne : m ≠ [])
     (c : SCfg) (st : St) (ref : Ref) (acc : Bool) (hs : sessionOk c st ref m) :
-    ∃ id', (∀ a, dispatch reg ⟨some id', m, paramsOf mm⟩ = .ok a → (ansMsg (some id') a).isSome = true →
-        (serveStreamable c reg st (postOf ref acc (.obj o))).2.messages.length = 1 ∧ (serveSSE reg (ssePostOf (.obj o))).messages.length = 1) ∧
-      (∀ a, dispatchStdio reg ⟨some id', m, paramsOf mm⟩ = .ok a → (ansMsg (some id') a).isSome = true →
-        (serveStdio reg (.json (.obj o))).messages.length = 1) := by
+    (serveStreamable c reg st (postOf ref acc (.obj o))).2.messages.length = 1 ∧
+    (serveSSE reg (ssePostOf (.obj o))).messages.length = 1 ∧ (serveStdio reg (.json (.obj o))).messages.length = 1 := by
   obtain ⟨id', h1, h2⟩ := serve_normal_form reg o mm hwf hrep m hm hne c st ref acc hs
-  refine ⟨id', ?_, ?_⟩
-  · intro a ha hs
-    obtain ⟨e1, e2⟩ := h1 a ha
-    obtain ⟨msg, hmsg⟩ := Option.isSome_iff_exists.mp hs
-    rw [e1, e2, hmsg]
-    simp [Reaction.http, Reaction.messages]
-  · intro a ha hs
-    obtain ⟨msg, hmsg⟩ := Option.isSome_iff_exists.mp hs
-    rw [h2 a ha, hmsg]
-    simp [Reaction.messages]
-
-/-- The inputs that ARE left without an answer today: a wrong path (D09: implicit empty 200) and an id without method /
-    result / error (D10: empty 202) on Streamable; the same id-only message on legacy SSE; on stdio an unparsable line, a
-    non-object, a missing version, a message with neither id nor method (D11: nothing is written). -/
-theorem C03_never_silent_counterexample :
-    let idOnly : Json := .obj [(t!"jsonrpc", .str t!"2.0"), (t!"id", .int 5)]
-    let wrongPath := (serveStreamable (demoCfg .stateful) demoReg demoSt ⟨.post, false, .sid 0, false, .json (demoEnv (.int 1) t!"ping" none)⟩).2
-    let r := (serveStreamable (demoCfg .stateful) demoReg demoSt (postOf (.sid 0) false idOnly)).2
-    let r' := serveSSE demoReg (ssePostOf idOnly)
-    wrongPath.status = some 200 ∧ wrongPath.messages.length = 0 ∧
-    r.status = some 202 ∧ r.messages.length = 0 ∧ r'.status = some 202 ∧ r'.messages.length = 0 ∧
-    (serveStdio demoReg .parseFail).messages.length = 0 ∧ (serveStdio demoReg (.json (.arr []))).messages.length = 0 ∧
-    (serveStdio demoReg (.json (.obj [(t!"id", .int 1), (t!"method", .str t!"ping")]))).messages.length = 0 ∧
-    (serveStdio demoReg (.json (.obj [(t!"jsonrpc", .str t!"2.0")]))).messages.length = 0 := by
-  decide +kernel
+  cases hd : dispatch reg ⟨some id', m, paramsOf mm⟩ with
+  | panic => exact absurd hd (dispatch_ne_panic _ _)
+  | ok a =>
+    cases hd' : dispatchStdio reg ⟨some id', m, paramsOf mm⟩ with
+    | panic => exact absurd hd' (dispatchStdio_ne_panic _ _)
+    | ok a' =>
+      obtain ⟨e1, e2⟩ := h1 a hd
+      obtain ⟨msg, hmsg⟩ := Option.isSome_iff_exists.mp (ansMsg_isSome (some id') a)
+      obtain ⟨msg', hmsg'⟩ := Option.isSome_iff_exists.mp (ansMsg_isSome (some id') a')
+      rw [e1, e2, h2 a' hd', hmsg, hmsg']
+      simp [Reaction.http, Reaction.messages]
 
 /-! ## non-vacuity -/
 
-/-- the demo registry restricted to its conforming tools satisfies `Conforming`, and a call goes through all three servers
-    with a well-formed answer -/
+/-- a call goes through all three servers with a well-formed answer; an embedded resource and a handler error too -/
 example :
-    let reg : Registry := ⟨t!"srv", t!"1", [demoEcho, demoBoom, demoChan], [demoPrompt], [demoResource]⟩
     let j := demoEnv (.str t!"a") t!"tools/call" (some (callParams t!"echo"))
-    ((serveStreamable (demoCfg .stateful true) reg demoSt (postOf (.sid 0) true j)).2.messages.all (wfMsg (some j))) = true ∧
-    (serveStreamable (demoCfg .stateful true) reg demoSt (postOf (.sid 0) true j)).2.hasResult = true ∧
-    ((serveSSE reg (ssePostOf j)).messages.all (wfMsg (some j))) = true ∧ ((serveStdio reg (.json j)).messages.all (wfMsg (some j))) = true ∧
-    (serveStdio reg (.json (demoEnv (.int 2) t!"tools/call" (some (callParams t!"boom"))))).errorCode = some (-32603) := by
+    let e := demoEnv (.int 3) t!"tools/call" (some (callParams t!"embedded"))
+    ((serveStreamable (demoCfg .stateful true) demoReg demoSt (postOf (.sid 0) true j)).2.messages.all (wfMsg (some j))) = true ∧
+    (serveStreamable (demoCfg .stateful true) demoReg demoSt (postOf (.sid 0) true j)).2.hasResult = true ∧
+    ((serveSSE demoReg (ssePostOf j)).messages.all (wfMsg (some j))) = true ∧ ((serveStdio demoReg (.json j)).messages.all (wfMsg (some j))) = true ∧
+    ((serveStdio demoReg (.json e)).messages.all (wfMsg (some e))) = true ∧ (serveStdio demoReg (.json e)).hasResult = true ∧
+    (serveStdio demoReg (.json (demoEnv (.int 2) t!"tools/call" (some (callParams t!"boom"))))).errorCode = some (-32603) := by
   decide +kernel
 
-example : Registry.Conforming ⟨t!"srv", t!"1", [demoEcho, demoBoom, demoChan], [demoPrompt], [demoResource]⟩ := by
-  refine ⟨?_, ?_, ?_, ?_⟩
+/-- the demo registry — nil-slice, embedded-resource and unencodable handlers included — satisfies `Conforming` -/
+example : Registry.Conforming demoReg := by
+  refine ⟨?_, ?_⟩
   · intro t ht
-    simp at ht
-    rcases ht with rfl | rfl | rfl <;> exact ⟨_, rfl, rfl⟩
-  · intro t ht a r hr
-    simp at ht
-    rcases ht with rfl | rfl | rfl <;> simp [demoEcho, demoBoom, demoChan] at hr
-    subst hr
-    exact ⟨_, rfl, by simp [isEmbedded]⟩
+    simp [demoReg] at ht
+    rcases ht with rfl | rfl | rfl | rfl | rfl <;> exact ⟨_, rfl, rfl⟩
   · intro p hp a r hr
-    simp at hp; subst hp
+    simp [demoReg] at hp; subst hp
     simp [demoPrompt] at hr; subst hr
-    exact ⟨_, rfl, by simp [roleOk, isEmbedded]⟩
-  · intro e he a cs hr
-    simp at he; subst he
-    simp [demoResource] at hr; subst hr; rfl
+    intro m hm
+    simp at hm; subst hm
+    exact ⟨by decide, _, rfl⟩
 
 /-- `badParams` is not vacuous: each of the four methods has parameters it rejects and parameters it accepts -/
 example :
